@@ -13,7 +13,7 @@ import sys
 
 import numpy as np
 
-from checks.common import hash_tag
+from checks.common import canon_value, hash_tag, quiet_call
 from qmc import gen as G
 from qmc import oracle as O
 from qmc.loader import load
@@ -115,6 +115,10 @@ def cases(tier, seed):
         for st in ("nonherm", "nilpotent", "zero", "rank1", "skew", "imag_identity", "skew_diag"):
             for sd in range(4):
                 out.append({"key": f"arb/{st}/n={n}/seed={sd}", "grp": "arb", "st": st, "n": n, "seed": sd})
+    # option grid: verbose x return_eigenvalue x budget (incl. 0) x inputs on which no / one / all iterations complete
+    for n in (1, 2, 3):
+        for st in ("zero", "identity", "herm", "nonherm", "nilpotent"):
+            out.append({"key": f"opts/{st}/n={n}", "grp": "opts", "st": st, "n": n})
     for n in range(1, 5):
         for st in ("nonherm", "herm", "complexlike"):
             for sd in range(S if tier == "quick" else 16):
@@ -280,6 +284,51 @@ def run_case(case, seed):
                 fails.append(fail("estimate=|lambda_max|", f"estimate {est!r} vs |lambda1| = {abs(l1)} (allowed {eb:.1e})", tol=tol, **tags))
         return {"key": case["key"], "fails": fails, "nontrivial": True, "digest": digest(A, case["start"], tol), "states": states, "transitions": transitions,
                 "traces": 0 if fails else 1, "path": f"sign={int(np.sign(l1))},ratio={rho},start={kind}", "obs": [len(fails)]}
+    if grp == "opts":
+        n, st = case["n"], case["st"]
+        fill = G.Fill(seed, stream=hash_tag(case["key"]))
+        A = fill.quat(n, n, bits=3, lo=-16, hi=16)
+        if st == "zero":
+            A[:] = 0
+        elif st == "identity":
+            A = O.qeye(n)
+        elif st == "herm":
+            A = 0.5 * (A + O.qH(A))
+            for i in range(n):
+                A[i, i, 1:] = 0
+        elif st == "nilpotent":
+            for i in range(n):
+                A[i, : i + 1] = 0
+        Aq = G.to_quat(A)
+        fails = []
+        evals = 0
+        s1 = O.svals(A)[0] if n else 0.0
+        for budget in (0, 1, 2, 7, 100):
+            for ret in (False, True):
+                outs = {}
+                for verbose in (False, True):
+                    np.random.seed(11)
+                    ok, r = quiet_call(u.power_iteration, Aq, max_iterations=budget, tol=1e-10, return_eigenvalue=ret, verbose=verbose)
+                    evals += 1
+                    t2 = {"grp": "opts", "st": st, "n": n, "budget": budget, "return_eigenvalue": ret, "verbose": verbose}
+                    if not ok:
+                        fails.append(fail("raised", f"power_iteration(max_iterations={budget}, return_eigenvalue={ret}, verbose={verbose}) on {st} {n}x{n}: {type(r).__name__}: {r}", **t2))
+                        continue
+                    outs[verbose] = canon_value(r)
+                    v = r[0] if ret else r
+                    if ret and not (isinstance(r, tuple) and len(r) == 2):
+                        fails.append(fail("return_form", f"return_eigenvalue=True returned {type(r).__name__}", **t2))
+                        continue
+                    vf = G.from_quat(np.asarray(v))
+                    if vf.shape[:2] != (n, 1) or not O.is_finite(vf) or abs(O.fro(vf) - 1.0) > 1e-12:
+                        fails.append(fail("unit_vector", f"budget {budget} verbose={verbose}: shape {vf.shape[:2]}, norm {O.fro(vf) if O.is_finite(vf) else 'nan'}", **t2))
+                    if ret:
+                        lamv = float(r[1])
+                        if not (lamv == lamv) or lamv < 0 or lamv > s1 * (1 + 1e-9) + 1e-300:
+                            fails.append(fail("estimate<=spectral_norm", f"budget {budget}: estimate {lamv!r}, ||A||_2 = {s1!r}", **t2))
+                if len(outs) == 2 and outs[False] != outs[True]:
+                    fails.append(fail("verbose_changes_result", f"power_iteration(max_iterations={budget}, return_eigenvalue={ret}) on {st} {n}x{n}: verbose=True returns a different value", grp="opts", st=st, n=n, budget=budget))
+        return {"key": case["key"], "fails": fails, "nontrivial": bool(A.any()), "digest": digest(A, "opts"), "evals": evals, "transitions": evals, "traces": evals - len(fails), "path": f"opts:{st}", "obs": len(fails)}
     if grp == "arb":
         n = case["n"]
         fill = G.Fill(seed, stream=hash_tag(case["key"].rsplit("/", 1)[0]))
